@@ -16,7 +16,6 @@ Each finding carries a channel name; `check` maps channels to properties.
 namespace Chess.Driver
 open Chess
 
-def T : Tables := codeTables
 
 structure Finding where
   kind : Char          -- 'M' model≠impl, 'O' oracle violated by impl, 'E' unparsable line
@@ -181,6 +180,19 @@ def opLEGAL (args res : List String) : Findings := Id.run do
 def countMen (p : Pos) (c : Color) : Nat := count p (·.2 == c)
 def countPawns (p : Pos) (c : Color) : Nat := count p (· == (.pawn, c))
 
+/-- the bounds the properties put on the recorded en-passant state (C02, C06): `q` is the successor the rules
+give (mark after *every* double push), `rec` what the library recorded.  Any policy between "a legal capture
+exists" and "an enemy pawn stands beside the pushed pawn" is admissible. -/
+def epPolicy (q : Pos) (rec : Option Sq) : Option String :=
+  match rec with
+  | some s =>
+    if q.ep != some s then some "en-passant recorded without a double push to that square"
+    else if (norm q).ep != some s then some "en-passant recorded although no enemy pawn stands beside the pushed pawn"
+    else none
+  | none =>
+    if q.ep.isSome ∧ (legalMoves q).any (isEnPassant q) then some "a legal en-passant capture exists but none is recorded"
+    else none
+
 def opMAKE (args res : List String) : Findings := Id.run do
   let mut fs : Findings := #[]
   let some bstr := args[0]? | return #[⟨'E', "parse", "MAKE args"⟩]
@@ -200,15 +212,32 @@ def opMAKE (args res : List String) : Findings := Id.run do
       let q := memo (apply p m)
       let expected := memo (norm q)
       let p' := memo b'.abs
-      if !posEq p' expected then
+      -- placement, side, rights: exactly what the rules give.  The en-passant mark is judged by the bounds the
+      -- property states (C02/C06, DESIGN §9), not by the library's present policy: recorded only after a double
+      -- push that landed beside an enemy pawn, and always when a legal en-passant capture exists.
+      if !posEq { p' with ep := none } { expected with ep := none } then
         fs := fs.push (fO "make" s!"successor is {showPos p'}, rules give {showPos expected}")
-      -- en-passant recording policy bounds
-      match b'.ep with
-      | some s =>
-        if q.ep != some s then fs := fs.push (fO "ep" "en-passant recorded without a double push to that square")
-      | none =>
-        if q.ep.isSome ∧ (legalMoves q).any (isEnPassant q) then
-          fs := fs.push (fO "ep" "a legal en-passant capture exists but none is recorded")
+      match epPolicy q p'.ep with
+      | some why => fs := fs.push (fO "ep" s!"{why}: successor is {showPos p'}, rules give {showPos q}")
+      | none => pure ()
+      -- the FEN text of the successor (C06): well-formed, describes the successor the rules give, and its en-passant
+      -- field is '-' unless the move just made was a double push (then the square passed over, within the policy
+      -- bounds) and is present whenever a legal en-passant capture exists
+      match (field? res "fen") with
+      | none => pure ()
+      | some ftxt =>
+        match text? ftxt with
+        | none => fs := fs.push (fO "mfen" s!"FEN of the successor: {ftxt}")
+        | some txt =>
+          match Fen.decode txt with
+          | none => fs := fs.push (fO "mfen" s!"not a well-formed six-field FEN: {String.ofList txt}")
+          | some d =>
+            let d := memo d
+            if !posEq { d with ep := none } { q with ep := none } then
+              fs := fs.push (fO "mfen" s!"FEN {String.ofList txt} describes {showPos d}, the rules give {showPos q}")
+            else match epPolicy q d.ep with
+              | some why => fs := fs.push (fO "mfen" s!"{why}: FEN {String.ofList txt}, the rules give {showPos q}")
+              | none => pure ()
       fs := wfFindings fs "wf." b' p'
       -- the observable hash of the successor is the from-scratch hash of the position the rules give
       match (field? res "gh").bind bb? with
